@@ -27,7 +27,7 @@ CFG = dict(
     go_tags="px",
     rigs=[dict(test="TestC16", timeout_quick=300, timeout_thorough=1500)],
     reason_text={"1": "the real Proxy's observation differs from every outcome of the Gallina model (Model/Proxy.v, all orders of internal rules)",
-                 "2": "delivery: an envelope handed to a peer is not the route transformation (destination rewritten, own name appended once, return route popped, nothing else changed) of exactly one accepted envelope, or went to a peer not named by the routed destination, or twice, or out of per source-destination order, or envelopes are lost that the proxy.drop counter does not account for",
+                 "2": "delivery: an envelope handed to a peer is not the route transformation (destination rewritten, own name appended once, return route popped, nothing else changed) of exactly one accepted envelope, or went to a peer not named by the routed destination, or twice (counting hand-overs that reached the peer although their Write returned an error), or out of per source-destination order, or envelopes are lost that the proxy.drop counter does not account for",
                  "3": "loss: an accepted envelope for a healthy destination was never handed on (the proxy.drop counter accounts for it: buffer overflow)",
                  "4": "the per-destination buffer measured on the running code is smaller than the 12 outstanding envelopes the property presupposes",
                  "5": "dial: newConnection was called for a name that had a live record (or twice), or an accepted envelope for a name without record did not make the proxy dial",
@@ -47,7 +47,9 @@ CFG = dict(
          "source - 1..4 real Servers (pre-attached / dialled on demand, 3 rewrites), unary + bidi + client-stream + server-stream RPCs with <= 12 "
          "envelopes outstanding per destination, compared with the direct-connection outcomes; free-running stress (3..10 peers, one goroutine "
          "per sender, paced and bursting) judged by the delivery predicates; a sample of lock-step scenarios (thorough: ~500) on which the "
-         "reduced and the full exploration of the model are compared outcome set by outcome set; every envelope shape: all 288 combinations of body (token / none / empty / 64 KiB), status (none / code / code+message+details), trailer "
+         "reduced and the full exploration of the model are compared outcome set by outcome set; writer faults: a Write that hands the envelope to the peer and THEN returns an error (directly, after having been blocked, in a "
+         "burst), with every failed conn.Write call observed and compared with the model and a tick of virtual time at every step (at most "
+         "once counts the hand-overs whose Write failed); every envelope shape: all 288 combinations of body (token / none / empty / 64 KiB), status (none / code / code+message+details), trailer "
          "(none / empty / metadata), reset (none / RST_STREAM / empty type / other type), request headers, on attached, return-route and "
          "dial-on-demand paths, compared whole (proto.Equal) modulo destination, route record and return route; end-to-end resets: a stream "
          "cancelled by the caller cancels the handler, a body for an unknown stream and undecodable metadata are answered by RST_STREAM, through "
